@@ -209,9 +209,15 @@ def check_lines(case):
     if case["order"]:
         d0 = dims[0]
         if d0 in mapping:
-            vals = ds[d0].values.tolist()[::-1]
-            if case["order"] == 2:
-                vals = vals[:1] + vals[2:] if len(vals) > 2 else vals[:1]
+            vals = ds[d0].values.tolist()
+            if case["order"] == 1:
+                # every value, reordered (the first coordinate - the one the
+                # "coord" NaN pattern empties - in the middle / at the end)
+                vals = vals[1:2] + vals[:1] + vals[2:]
+            else:
+                # a selection: first and last only (with fewer than three
+                # values: all of them, so that something is left to draw)
+                vals = vals[:1] + vals[2:] if len(vals) > 2 else vals[::-1]
             kw[mapping[d0] + "_order"] = vals
             orders[d0] = vals
     if case["join"]:
